@@ -192,65 +192,136 @@ func (fi *FactInfo) buildCanon() {
 	// a local struct that is only ever used field by field (built once, read back later: a parameter
 	// object handed between the phases of one function after helper expansion): a field that is stored
 	// exactly once, before every load of it, reads back as the stored value
+	// (the struct may also be copied whole — built in a literal, assigned to a result variable, handed on as
+	// an argument of an expanded helper: a field of the copy reads back as the field of the original)
+	type allocInfo struct {
+		private     bool
+		stores      map[int][]*ssa.Store
+		loads       map[int][]*ssa.UnOp
+		wholeStores []*ssa.Store
+		wholeLoads  []*ssa.UnOp
+	}
+	infos := map[*ssa.Alloc]*allocInfo{}
+	infoOf := func(al *ssa.Alloc) *allocInfo {
+		if ai, ok := infos[al]; ok {
+			return ai
+		}
+		ai := &allocInfo{private: true, stores: map[int][]*ssa.Store{}, loads: map[int][]*ssa.UnOp{}}
+		infos[al] = ai
+		if _, isStruct := derefType(al.Type()).Underlying().(*types.Struct); !isStruct || al.Referrers() == nil {
+			ai.private = false
+			return ai
+		}
+		for _, r := range *al.Referrers() {
+			switch x := r.(type) {
+			case *ssa.DebugRef:
+			case *ssa.FieldAddr:
+				for _, fr := range *x.Referrers() {
+					switch y := fr.(type) {
+					case *ssa.DebugRef:
+					case *ssa.Store:
+						if y.Addr != ssa.Value(x) {
+							ai.private = false
+						}
+						ai.stores[x.Field] = append(ai.stores[x.Field], y)
+					case *ssa.UnOp:
+						if y.Op != token.MUL {
+							ai.private = false
+						}
+						ai.loads[x.Field] = append(ai.loads[x.Field], y)
+					default:
+						ai.private = false
+					}
+				}
+			case *ssa.Store:
+				if x.Addr != ssa.Value(al) || x.Val == ssa.Value(al) {
+					ai.private = false
+				}
+				ai.wholeStores = append(ai.wholeStores, x)
+			case *ssa.UnOp:
+				if x.Op != token.MUL {
+					ai.private = false
+				}
+				ai.wholeLoads = append(ai.wholeLoads, x)
+			default:
+				ai.private = false
+			}
+		}
+		return ai
+	}
+	before := func(a, b ssa.Instruction) bool {
+		if a.Block() == b.Block() {
+			return instrIndex(a) < instrIndex(b)
+		}
+		return a.Block().Dominates(b.Block())
+	}
+	// fieldAt: the value field f of the private struct al holds when instruction at runs, if it was written
+	// exactly once (directly, or by one whole-struct copy) before
+	var fieldAt func(al *ssa.Alloc, f int, at ssa.Instruction, depth int) ssa.Value
+	fieldAt = func(al *ssa.Alloc, f int, at ssa.Instruction, depth int) ssa.Value {
+		if depth > 6 {
+			return nil
+		}
+		ai := infoOf(al)
+		if !ai.private || len(ai.stores[f])+len(ai.wholeStores) != 1 {
+			return nil
+		}
+		if len(ai.stores[f]) == 1 {
+			st := ai.stores[f][0]
+			if !before(st, at) {
+				return nil
+			}
+			return st.Val
+		}
+		ws := ai.wholeStores[0]
+		if !before(ws, at) {
+			return nil
+		}
+		// the copied value: a load of another private struct
+		if ld, ok := ws.Val.(*ssa.UnOp); ok && ld.Op == token.MUL {
+			if src, isAl := ld.X.(*ssa.Alloc); isAl {
+				// nothing may be written to the source between nothing: single stores before the load
+				return fieldAt(src, f, ld, depth+1)
+			}
+		}
+		return nil
+	}
 	for _, b := range fi.fn.Blocks {
 		for _, in := range b.Instrs {
-			al, ok := in.(*ssa.Alloc)
-			if !ok {
-				continue
-			}
-			if _, isStruct := derefType(al.Type()).Underlying().(*types.Struct); !isStruct {
-				continue
-			}
-			private := true
-			stores := map[int][]*ssa.Store{}
-			loads := map[int][]*ssa.UnOp{}
-			for _, r := range *al.Referrers() {
-				switch x := r.(type) {
-				case *ssa.DebugRef:
-				case *ssa.FieldAddr:
-					for _, fr := range *x.Referrers() {
-						switch y := fr.(type) {
-						case *ssa.DebugRef:
-						case *ssa.Store:
-							if y.Addr != ssa.Value(x) {
-								private = false
-							}
-							stores[x.Field] = append(stores[x.Field], y)
-						case *ssa.UnOp:
-							if y.Op != token.MUL {
-								private = false
-							}
-							loads[x.Field] = append(loads[x.Field], y)
-						default:
-							private = false
-						}
-					}
-				default:
-					private = false
-				}
-			}
-			if !private {
-				continue
-			}
-			for f, lds := range loads {
-				if len(stores[f]) != 1 {
+			switch x := in.(type) {
+			case *ssa.UnOp:
+				if x.Op != token.MUL {
 					continue
 				}
-				st := stores[f][0]
-				for _, ld := range lds {
-					before := false
-					if st.Block() == ld.Block() {
-						before = instrIndex(st) < instrIndex(ld)
-					} else {
-						before = st.Block().Dominates(ld.Block())
+				fa, ok := x.X.(*ssa.FieldAddr)
+				if !ok {
+					continue
+				}
+				al, isAl := fa.X.(*ssa.Alloc)
+				if !isAl {
+					continue
+				}
+				if v := fieldAt(al, fa.Field, x, 0); v != nil {
+					if r, ok := fi.canonV[v]; ok {
+						v = r
 					}
-					if before {
-						v := st.Val
-						if r, ok := fi.canonV[v]; ok {
-							v = r
-						}
-						fi.canonV[ld] = v
+					fi.canonV[x] = v
+				}
+			case *ssa.Field:
+				// a field of a struct value loaded whole from a private struct
+				ld, ok := x.X.(*ssa.UnOp)
+				if !ok || ld.Op != token.MUL {
+					continue
+				}
+				al, isAl := ld.X.(*ssa.Alloc)
+				if !isAl {
+					continue
+				}
+				if v := fieldAt(al, x.Field, ld, 0); v != nil {
+					if r, ok := fi.canonV[v]; ok {
+						v = r
 					}
+					fi.canonV[x] = v
 				}
 			}
 		}
